@@ -185,8 +185,14 @@ func (wkr *worker) startContainer(ctr arvados.Container) {
 		now := time.Now()
 		wkr.updated = now
 		wkr.busy = now
-		delete(wkr.starting, ctr.UUID)
-		wkr.running[ctr.UUID] = rr
+		if wkr.starting[ctr.UUID] == rr {
+			// Otherwise a probe has already seen the new
+			// process and moved rr to wkr.running (and may
+			// even have reaped it since): re-inserting rr
+			// would make the next probe close it twice.
+			delete(wkr.starting, ctr.UUID)
+			wkr.running[ctr.UUID] = rr
+		}
 		wkr.lastUUID = ctr.UUID
 	}()
 }
